@@ -44,6 +44,10 @@ func Alphabet(pc ref.PConfig) []ref.Cmd {
 	add(ref.Cmd{Name: "MAIL tmp", Op: "MAIL", Arg: "tmp@a.example", Steps: [][]byte{line("MAIL FROM:<tmp@a.example>")}})
 	add(ref.Cmd{Name: "MAIL syntax", Op: "MAIL", Bad: "syntax", Steps: [][]byte{line("MAIL FROM:<nobody")}})
 	add(ref.Cmd{Name: "MAIL size over", Op: "MAIL", Arg: "ok1@a.example", Bad: "sizeover", Steps: [][]byte{line("MAIL FROM:<ok1@a.example> SIZE=99999")}})
+	if pc.MaxBytes > 0 {
+		// a declared size of exactly the limit is acceptable in every state in which MAIL is
+		add(ref.Cmd{Name: "MAIL size at the limit", Op: "MAIL", Arg: "ok1@a.example", Steps: [][]byte{line(fmt.Sprintf("MAIL FROM:<ok1@a.example> SIZE=%d", pc.MaxBytes))}})
+	}
 	add(ref.Cmd{Name: "MAIL binarymime", Op: "MAIL", Arg: "ok1@a.example", Binmime: true, Steps: [][]byte{line("MAIL FROM:<ok1@a.example> BODY=BINARYMIME")}})
 	add(ref.Cmd{Name: "MAIL unknown param", Op: "MAIL", Bad: "unknownparam", Steps: [][]byte{line("MAIL FROM:<ok1@a.example> FOO=bar")}})
 	add(ref.Cmd{Name: "MAIL panic", Op: "MAIL", Arg: "panic@a.example", Steps: [][]byte{line("MAIL FROM:<panic@a.example>")}})
